@@ -74,3 +74,32 @@ let announced (bs : M.bytes) : int option =
   if n < 4 then None
   else let w = word b 0 in
     if w mod 4 = 0 && w >= 4 && w <= n then Some (w / 4) else None
+
+(* "for every list of variable-size items, decoding succeeds only if the offset table and the
+   variable parts tile the input": the slices of a tiled input, None when it is not tiled *)
+let list_slices (bs : M.bytes) : (int * int) list option =
+  let b = Array.of_list (List.map int_of_n bs) in
+  let n = Array.length b in
+  if n = 0 then Some []
+  else if n < 4 then None
+  else
+    let first = word b 0 in
+    if first > n || first < 4 || first mod 4 <> 0 then None
+    else begin
+      let cnt = first / 4 in
+      let offs = List.init cnt (fun i -> word b (4 * i)) in
+      let rec nondecr = function a :: (c :: _ as r) -> a <= c && nondecr r | _ -> true in
+      if not (nondecr offs) || List.exists (fun o -> o > n || o < first) offs then None
+      else Some (List.combine offs ((List.tl offs) @ [n]))
+    end
+
+(* items are lists of u16 (the probe item type): a slice is an item iff its length is even *)
+let expected_u16_lists (bs : M.bytes) : string =
+  let b = Array.of_list (List.map int_of_n bs) in
+  match list_slices bs with
+  | None -> "err"
+  | Some sl ->
+    if List.exists (fun (a, e) -> (e - a) mod 2 <> 0) sl then "err"
+    else "ok (l" ^ String.concat "" (List.map (fun (a, e) ->
+        " (l" ^ String.concat "" (List.init ((e - a) / 2) (fun i ->
+            Printf.sprintf " (u %x)" (b.(a + 2 * i) lor (b.(a + 2 * i + 1) lsl 8)))) ^ ")") sl) ^ ")"
